@@ -4,7 +4,7 @@ PROPS = {}
 NOT_APPLICABLE = {}
 HOOK_COMMITS = ["8fb4223", "3373e87"]
 
-DENSE_INV = ["TypeOK", "Refines", "EqRefines", "RowCount", "KeepOld", "NewDefault", "CloneEq", "Untouched", "IterOrder", "EndsExact", "EmitReplay"]
+DENSE_INV = ["TypeOK", "Refines", "EqRefines", "RowCount", "KeepOld", "NewDefault", "CloneEq", "CloneEq2", "Untouched", "IterOrder", "EndsExact", "EmitReplay"]
 PROPS["C19"] = dict(
     mc=[
         dict(name="MC_Dense", module="MC_Dense", view="View", invariants=DENSE_INV,
@@ -56,6 +56,9 @@ PROPS["C04"] = dict(
         dict(name="MC_Striped_replay_C2", module="MC_Striped", view="View", invariants=STRIPED_INV, emit=True,
              constants=dict(C=2, K=3, Variant='"generic"', T=2, Emit=True, MaxWrap=3),
              quick=dict(MaxLen=4, MaxDepth=3), thorough=dict(MaxLen=5, MaxDepth=3)),
+        dict(name="MC_Striped_replay_C3", module="MC_Striped", view="View", invariants=STRIPED_INV, emit=True,
+             constants=dict(C=3, K=3, Variant='"generic"', T=3, Emit=True, MaxWrap=3),
+             quick=dict(MaxLen=4, MaxDepth=2), thorough=dict(MaxLen=5, MaxDepth=3)),
         dict(name="MC_Striped_replay_C4", module="MC_Striped", view="View", invariants=STRIPED_INV, emit=True,
              constants=dict(C=4, K=3, Variant='"generic"', T=4, Emit=True, MaxWrap=3),
              quick=dict(MaxLen=5, MaxDepth=2), thorough=dict(MaxLen=6, MaxDepth=2)),
@@ -295,6 +298,7 @@ def _pwm_mc():
     return [dict(name="MC_Pwm", module="MC_Pwm", invariants=PWM_INV, constants=dict(),
                  quick=dict(MaxM=2, CellVals="{0, 2}", MaxX=3000), thorough=dict(MaxM=2, CellVals="{0, 1, 3}", MaxX=8000))]
 PROPS["C09"] = dict(mc=_pwm_mc(), record=True, trace="Trace_C09", shards=12,
+    also_record=[dict(package="lmpyconform", mode="C09", trace="Trace_Py", shards=2, tag="py")],
     level_text="The conversions are D-layer definitions in exact rational arithmetic (counts, (count+pseudo)/total, "
                "frequency/background with the zero-background convention, fixed-point logarithm in the requested base, "
                "min/max score as sums of row extrema, validity predicates); their algebraic facts (rows sum to one, window "
@@ -312,6 +316,7 @@ PROPS["C09"] = dict(mc=_pwm_mc(), record=True, trace="Trace_C09", shards=12,
     assumptions=["counts <= 24 per row, widths <= 10, pseudocounts in {0,1/10,1/4,1/2,3/4,1}, background denominators "
                  "<= 32 (so that all cross-multiplications stay below 2^31 in TLC)"])
 PROPS["C10"] = dict(mc=_pwm_mc(), record=True, trace="Trace_C10", shards=12,
+    also_record=[dict(package="lmpyconform", mode="C10", trace="Trace_Py", shards=2, tag="py")],
     level_text="Reverse complement is the D-layer operator RC (row reversal + A<->T, C<->G, N fixed); involution, mirrored "
                "window scores and commutation with counting are model-checked on all small matrices / words. Recorded "
                "reverse complements of real count / frequency / scoring matrices (widths 0..30, wildcard column populated, "
